@@ -204,11 +204,103 @@ def correspondences(tier, rng):
         for _ in range(4):
             init = sorted(set([0] + [gid[rng.choice(base)] for _ in range(rng.randint(1, 4))]))
             c5.append((k, len(order) + 2, lks, gsub_lookup_order(t.table), init))
+    # directed: class-based (Format 2) contextual subtables built by hand -- classes whose members are only partly in the coverage,
+    # lookup records at every sequence position, nested lookups reachable only through the context
+    def format2_table(kk):
+        from fontTools.ttLib import newTable
+        glyphs = ["g%d" % i for i in range(10)]; alts = ["g%d.alt" % i for i in range(10)]
+        order = [".notdef"] + glyphs + alts
+        gm = {n_: i for i, n_ in enumerate(order)}
+        ncls = rng.randint(2, 3)
+        cd = {g: rng.randint(1, ncls) for g in glyphs if rng.chance(65)}       # class 0 = not listed (a ClassDef never lists it)
+        cov = sorted([g for g in glyphs if rng.chance(45)] or [glyphs[0]], key=gm.get)
+        chain = rng.chance(40)
+        T_ = ot.ChainContextSubst if chain else ot.ContextSubst
+        st = T_(); st.Format = 2; st.Coverage = ot.Coverage(); st.Coverage.glyphs = cov
+        mk = lambda d: (lambda c: (setattr(c, "classDefs", dict(d)), c)[1])(ot.ClassDef())
+        if chain:
+            st.InputClassDef = mk(cd); st.BacktrackClassDef = mk({g: 1 for g in glyphs if rng.chance(50)}); st.LookAheadClassDef = mk({g: 1 for g in glyphs if rng.chance(50)})
+        else: st.ClassDef = mk(cd)
+        nsub = rng.randint(1, 3)                      # nested single-substitution lookups 1..nsub (lookup 0 is the context)
+        sets = []
+        for k_ in range(ncls + 1):
+            if not rng.chance(70): sets.append(None); continue
+            rules = []
+            for _r in range(rng.randint(1, 2)):
+                inp = [rng.randint(0, ncls) for _ in range(rng.randint(1, 3))]
+                recs = []
+                for _q in range(rng.randint(1, 2)):
+                    rec = ot.SubstLookupRecord(); rec.SequenceIndex = rng.randint(0, len(inp)); rec.LookupListIndex = rng.randint(1, nsub); recs.append(rec)
+                if chain:
+                    r = ot.ChainSubClassRule(); r.Backtrack = [1] * rng.randint(0, 1); r.Input = inp; r.LookAhead = [1] * rng.randint(0, 1)
+                    r.BacktrackGlyphCount = len(r.Backtrack); r.InputGlyphCount = len(inp) + 1; r.LookAheadGlyphCount = len(r.LookAhead)
+                else:
+                    r = ot.SubClassRule(); r.Class = inp; r.GlyphCount = len(inp) + 1
+                r.SubstLookupRecord = recs; r.SubstCount = len(recs); rules.append(r)
+            rs = (ot.ChainSubClassSet if chain else ot.SubClassSet)()
+            setattr(rs, "ChainSubClassRule" if chain else "SubClassRule", rules); setattr(rs, "ChainSubClassRuleCount" if chain else "SubClassRuleCount", len(rules))
+            sets.append(rs)
+        setattr(st, "ChainSubClassSet" if chain else "SubClassSet", sets); setattr(st, "ChainSubClassSetCount" if chain else "SubClassSetCount", len(sets))
+        lks = [B.buildLookup([st])]
+        for j in range(nsub):
+            lks.append(B.buildLookup([B.buildSingleSubstSubtable({g: g + ".alt" for g in glyphs if rng.chance(60)} or {glyphs[j]: glyphs[j] + ".alt"})]))
+        t = ot.GSUB(); t.Version = 0x00010000
+        t.LookupList = ot.LookupList(); t.LookupList.Lookup = lks; t.LookupList.LookupCount = len(lks)
+        fr = ot.FeatureRecord(); fr.FeatureTag = "test"; fr.Feature = ot.Feature(); fr.Feature.FeatureParams = None
+        fr.Feature.LookupListIndex = [0]; fr.Feature.LookupCount = 1
+        t.FeatureList = ot.FeatureList(); t.FeatureList.FeatureRecord = [fr]; t.FeatureList.FeatureCount = 1
+        sr = ot.ScriptRecord(); sr.ScriptTag = "DFLT"; sr.Script = ot.Script(); sr.Script.LangSysRecord = []; sr.Script.LangSysCount = 0
+        ls = ot.DefaultLangSys(); ls.ReqFeatureIndex = 0xFFFF; ls.FeatureIndex = [0]; ls.FeatureCount = 1; ls.LookupOrder = None
+        sr.Script.DefaultLangSys = ls
+        t.ScriptList = ot.ScriptList(); t.ScriptList.ScriptRecord = [sr]; t.ScriptList.ScriptCount = 1
+        g = newTable("GSUB"); g.table = t
+        return g, order, gm, glyphs
+    for k in range(N(tier, 60, 800)):
+        try:
+            t, order, gm, glyphs = format2_table(k)
+            lks = model_of_gsub(t.table, gm)
+        except Exception:
+            continue
+        key = ("f2", k); tables[key] = (t, order)
+        for _ in range(4):
+            init = sorted(set([0] + [gm[rng.choice(glyphs)] for _ in range(rng.randint(1, 5))]))
+            c5.append((key, len(order) + 2, lks, gsub_lookup_order(t.table), init))
     def impl_gsub(x):
         t, order = tables[x[0]]
         s = types.SimpleNamespace(glyphs={order[i] for i in x[4]})
         t.closure_glyphs(s)
         return sorted(order.index(g) for g in s.glyphs)
+    _f2fonts = {}
+    def oracle_gsub(x):
+        """the PROPERTY on the implementation, for the hand-built tables: whatever HarfBuzz turns a text over the requested glyphs into
+        stays inside the closure the subsetter computes (so nothing the text needs is subset away)"""
+        key = x[0]
+        if not (isinstance(key, tuple) and key[0] == "f2"): return None
+        from lib.hb import HBFont
+        from fontTools.fontBuilder import FontBuilder
+        from fontTools.pens.ttGlyphPen import TTGlyphPen
+        t, order = tables[key]
+        if key not in _f2fonts:
+            fb = FontBuilder(1000, isTTF=True); fb.setupGlyphOrder(order)
+            fb.setupCharacterMap({0x61 + i: g for i, g in enumerate(order[1:11])})
+            fb.setupGlyf({g: TTGlyphPen(None).glyph() for g in order}); fb.setupHorizontalMetrics({g: (500, 0) for g in order})
+            fb.setupHorizontalHeader(ascent=800, descent=-200); fb.setupNameTable({"familyName": "F2", "styleName": "R"}); fb.setupOS2(); fb.setupPost()
+            fb.font["GSUB"] = t
+            b = io.BytesIO(); fb.save(b); _f2fonts[key] = HBFont(b.getvalue(), order)
+        hbf = _f2fonts[key]
+        s_ = types.SimpleNamespace(glyphs={order[i] for i in x[4]}); t.closure_glyphs(s_)
+        req = [order[i] for i in x[4] if 1 <= i <= 10]
+        if not req: return None
+        r_ = random_for(x)
+        for _ in range(40):
+            text = [r_.choice(req) for _ in range(r_.randint(1, 6))]
+            out = hbf.shape("".join(chr(0x61 + order.index(g) - 1) for g in text), features={"test": True}, script="DFLT")
+            miss = [o[0] for o in out if o[0] not in s_.glyphs]
+            if miss: return "text %r over the request shapes to %r, but %r is not in the closure %r" % (text, [o[0] for o in out], miss[0], sorted(s_.glyphs))
+        return None
+    def random_for(x):
+        import random
+        return random.Random(hash((x[0], tuple(x[4]))) & 0xFFFFFFFF)
     # --- ligature subtables: subset_glyphs on the real class; the model's reading of a subtable against HarfBuzz
     def gen_lig():
         firsts = rng.sample(range(0, 10), rng.randint(1, 4))
@@ -267,7 +359,7 @@ def correspondences(tier, rng):
         out = HBFont(data, order).shape("".join(chr(0x61 + g) for g in text), features={"liga": True}, script="DFLT")
         return [int(o[0][1:]) for o in out]
     return [Corr("subset_lig", c6, impl_subset_lig), Corr("shape_lig", c7, impl_shape_lig, enc=lambda x: (x[0], x[1])),
-            Corr("closure_gsub", c5, impl_gsub, enc=lambda x: x[1:], compare=cmp_closure),
+            Corr("closure_gsub", c5, impl_gsub, enc=lambda x: x[1:], compare=cmp_closure, oracle=oracle_gsub),
             Corr("subset_subst", c1, impl_subset, enc=enc_subset),
             Corr("closure", c2, impl_closure, enc=lambda x: ([sorted(m.items()) for m in x[0]], x[1]), compare=cmp_closure),
             Corr("classdef_subset", c3, impl_classdef, enc=enc_classdef),
@@ -427,6 +519,15 @@ def build_feature_font(rng, variable=False):
             if j % 2: vk.append("pos %s %s (wght=100:%d wght=400:%d wght=900:%d);" % (a, b, rng.randint(-50, 50), rng.randint(-50, 50), rng.randint(-50, 50)))
             else: vk.append("pos %s %s (wght=400,wdth=100:%d wght=400,wdth=200:%d wght=900,wdth=100:%d);" % (a, b, rng.randint(-50, 50), rng.randint(-50, 50), rng.randint(-50, 50)))
         fea = fea + "feature dist {\n  %s\n} dist;\n" % "\n  ".join(sorted(set(vk), key=lambda l: l.split()[1:3]))
+        # variable cursive anchors: entry varying in x only, exit in y only, and one glyph with both varying -- an anchor that
+        # varies on one axis carries a single device table
+        cg = rng.sample(base, min(3, len(base)))
+        ca = []
+        for j, g in enumerate(cg):
+            if j == 0: ca.append("pos cursive %s <anchor (wght=400:%d wght=900:%d) 0> <anchor 250 (wght=400:%d wght=900:%d)>;" % (g, 10, 10 + rng.randint(20, 60), 5, 5 + rng.randint(20, 60)))
+            elif j == 1: ca.append("pos cursive %s <anchor 0 (wght=400:%d wght=900:%d)> <anchor (wght=400:%d wght=900:%d) 30>;" % (g, 0, rng.randint(20, 60), 260, 260 + rng.randint(20, 60)))
+            else: ca.append("pos cursive %s <anchor (wght=400:5 wght=900:%d) (wght=400:5 wght=900:%d)> <anchor 240 0>;" % (g, rng.randint(20, 50), rng.randint(20, 50)))
+        fea = fea + "feature curs {\n  %s\n} curs;\n" % "\n  ".join(ca)
     addOpenTypeFeaturesFromString(fb.font, fea)
     if variable:
         if rng.chance(50): _add_hvar(fb.font, rng)
@@ -580,6 +681,7 @@ def sweeps(tier, rng):
                 k = rng.randint(1, min(4, len(base)))
                 chars = sorted(set(rng.choice(base) for _ in range(k)))
                 opts = dict(rng.choice(OPTION_SETS)); allfeat = opts.get("layout_features") == ["*"]
+                if variable and rng.chance(35): opts["hinting"] = False          # hint removal must leave VARIATION device tables alone
                 extra_glyphs = [rng.choice(order)] if rng.chance(25) else []
                 try:
                     sub, suborder = do_subset(data, [ord(c) for c in chars], extra_glyphs, opts)
